@@ -117,6 +117,16 @@ def make_fields(qib):
 def build_gate(qib, fields, d):
     """construct the gate described by d (a dict as produced by Inst.desc)"""
     cls, params, n, binding, how = d["cls"], d["params"], d["n"], d["bound"], d.get("how", "ctor")
+    # parameter TYPE dimension: "ctor:int" hands Python ints, "ctor:npint" numpy integers, "ctor:np64" numpy floats (float32
+    # parameters are not generated: numpy then evaluates cos/sin in single precision, the matrix is unitary to 1e-8 only - by request)
+    how, _, ptype = how.partition(":")
+    if ptype:
+        conv = {"int": int, "npint": np.int64, "np32": np.float32, "np64": np.float64}[ptype]
+        if cls == "RotationGate" and ptype != "int":
+            params = np.array(params, dtype=conv)          # an array of that dtype (not a list of scalars)
+            how = "asis"
+        else:
+            params = [conv(x) for x in params]
     G = getattr(qib.operator, cls, None) or getattr(qib, cls)
     qs = [qib.field.Qubit(fields[f], i) for f, i in binding] if binding else []
     one = ("IdentityGate", "PauliXGate", "PauliYGate", "PauliZGate", "HadamardGate", "SxGate", "SGate", "SAdjGate", "TGate", "TAdjGate")
@@ -129,7 +139,7 @@ def build_gate(qib, fields, d):
             return G(params[0]), qs
         return (G(params[0]).on(qs[0]) if how == "on" else G(params[0], qs[0])), qs
     if cls == "RotationGate":
-        v = {"ctor": list, "on": list, "tuple": tuple, "array": np.array}[how](params)
+        v = {"ctor": list, "on": list, "tuple": tuple, "array": np.array, "asis": lambda x: x}[how](params)
         if not qs:
             return G(v), qs
         return (G(v).on(qs[0]) if how == "on" else G(v, qs[0])), qs
@@ -191,15 +201,22 @@ def instances(ctx, desc):
                 for phi in angles()[:: (3 if not ctx.thorough else 1)]:
                     for b in ([None] + ([rng.sample(sites, n)] if n else [])):
                         out.append(Inst(cls, [phi], n, b, rng.choice(["ctor", "on"])))
+                for phi, pt in ((1, "int"), (-2, "npint"), (0.5, "np64")):
+                    out.append(Inst(cls, [float(phi)], n, None, "ctor:" + pt))
         elif cls == "RotationGate":
             for v in vecs():
                 for b in bindings(1):
                     out.append(Inst(cls, v, 0, b, rng.choice(["ctor", "on", "tuple", "array"])))
+            for v, pt in (((1, 2, -2), "int"), ((0, 0, 0), "int"), ((0, 3, 0), "npint"), ((0, 0, 0), "npint"), ((1.5, 0.0, -0.5), "np64")):
+                out.append(Inst(cls, [float(x) for x in v], 0, None, "ctor:" + pt))
         elif npar == 1:
             nq = 2 if cls in ("RxxGate", "RyyGate", "RzzGate") else 1
             for th in angles():
                 for b in bindings(nq):
                     out.append(Inst(cls, [th], 0, b, rng.choice(["ctor", "on"])))
+            # parameter type: Python int / numpy integer / numpy float64 scalars
+            for th, pt in ((1, "int"), (-3, "int"), (0, "int"), (2, "npint"), (-7, "npint"), (1.75, "np64")):
+                out.append(Inst(cls, [float(th)], 0, bindings(nq)[-1] if pt == "int" else None, "ctor:" + pt))
         elif npar == 0:
             nq = 2 if cls == "ISwapGate" else 1
             for b in bindings(nq) + bindings(nq)[1:]:
